@@ -78,4 +78,13 @@ CHECKS = {
             "assumptions": ["faults are injected by the harness' own logging handlers; one bubble per case (fake time, HandlerTimeout 100ms, HandlerDeadline 2s, HandlerBackoff 3s)", "rollback exactness is demanded for single faults, one binding, schemas without Auto states, judged on the state seen by the transition that follows the faulty one; re-entered Multi states are ignored", "sequences of faults: containment only (no escape, no wedge, parity == activity)", "after a deadline stall the probe runs after the documented backoff"],
         },
     },
+    "C06": {
+        "pkg": "harness/c06",
+        "budget_s": {"quick": 150, "thorough": 1800},
+        "meta": {
+            "rule": "bounded-exhaustive over histories: 5 schemas (plain, Multi, Auto+Require, Add/Remove, partially accepted Auto) x every history of depth 3 (quick) / 4 (thorough) over an 7-10 letter mutation alphabet (incl. SetSchema growth, args, CanAdd) x 16-19 subscription specs (When, WhenNot, WhenTime, WhenTicks, WhenNextActive, WhenQuery, WhenArgs, WhenQueue, NewStateCtx) x every subscription position (before step p, or from inside the first final handler of step p) x ctx mode (nil, live, cancelled before step k); oracle from the recorded tick history; non-trivial = case in which the channel/ctx closed",
+            "nontrivial_set": "closed_kinds",
+            "assumptions": SEQ_ASSUME + ["ctx expiry: weaker reading (must close only after a transition ran since the ctx ended; may close earlier)", "the concurrent subscriber-vs-transition interleavings are covered by the in-handler subscription position (the only window: between setActiveStates and processSubscriptions) and by the SCHED drivers when built"],
+        },
+    },
 }
